@@ -525,3 +525,240 @@ theorem rlinv_reachable {p : Nat} {g : Gen} {b : Nat} {c : Cfg}
   induction h with
   | init => exact rlinv_init p g b
   | step _ hs ih => exact rlinv_step ih hs
+
+/-! ### A configuration without enabled step is final -/
+
+/-- the server's own thread is enabled unless it is parked in `run_until_shutdown`, or waits for a lock -/
+theorem main_enabled {g : Gen} {b : Nat} {tm tc : Thread} {otp : Option Thread} {s : Shared} {rest : List Thread}
+    (hm : MainOK tm) (hL : LInv g b s tm tc otp) (h1 : tm.pc ≠ .mnWake)
+    (h2 : tm.pc = .mnAcq → s.shutOwner = none) (h3 : tm.pc = .mnTxA → s.txOwner = none) :
+    step { sh := s, ths := tm :: rest } 0 ≠ none := by
+  obtain ⟨hprog, hpc⟩ := hm
+  have l2 := hL.shut
+  have l4 := hL.tx
+  unfold step
+  simp only [List.getElem?_cons_zero]
+  rcases hpc with hpc | hpc | hpc | hpc | hpc | hpc
+  · simp [hpc, hprog]
+  · simp [hpc, h2 hpc]
+  · simp [hpc, mShut] at l2 ⊢; simp [l2]
+  · exact absurd hpc h1
+  · simp [hpc, h3 hpc]
+  · simp [hpc] at l4 ⊢; simp [l4]
+
+theorem step_nbGet_none {c : Cfg} {tid : Queue.Tid} {t : Thread} {q : Queue.Shared}
+    (ht : c.ths[tid]? = some t) (hpc : t.pc = .nbGet) (hq : c.sh.qs[t.g]? = some q)
+    (h : step c tid = none) : Queue.stepThread q t.qt tid false = none := by
+  unfold step at h
+  simp only [ht, hpc, hq] at h
+  cases hst : Queue.stepThread q t.qt tid false with
+  | none => rfl
+  | some r =>
+    obtain ⟨a, b, d⟩ := r
+    simp only [hst] at h
+    split at h <;> simp at h
+
+theorem step_prod_none {c : Cfg} {tid : Queue.Tid} {t : Thread} {q : Queue.Shared}
+    (ht : c.ths[tid]? = some t) (hpc : t.pc = .prod) (hq : c.sh.qs[t.g]? = some q)
+    (h : step c tid = none) : Queue.stepThread q t.qt tid false = none := by
+  unfold step at h
+  simp only [ht, hpc, hq] at h
+  cases hst : Queue.stepThread q t.qt tid false with
+  | none => rfl
+  | some r =>
+    obtain ⟨a, b, d⟩ := r
+    simp only [hst] at h
+    split at h <;> simp at h
+
+theorem stepThread_done_none {q : Queue.Shared} {t : Queue.Thread} {tid : Queue.Tid} (h : t.pc = .done) :
+    Queue.stepThread q t tid false = none := by
+  unfold Queue.stepThread; simp [h]
+
+/-- if neither the server thread nor the client can step, the client is inside `get_batch` or has ended -/
+theorem client_dead {g : Gen} {b : Nat} {tm tc : Thread} {otp : Option Thread} {s : Shared}
+    (hm : MainOK tm) (hprog : tc.prog = .client g b) (hns : s.shutdownRequested = false)
+    (hup : s.serverUp = true) (hcore : Core g b s tc otp) (hL : LInv g b s tm tc otp)
+    (hd0 : step { sh := s, ths := tm :: tc :: Option.toList otp } 0 = none)
+    (hd1 : step { sh := s, ths := tm :: tc :: Option.toList otp } 1 = none) :
+    ∃ tp, otp = some tp ∧ (tc.pc = .nbGet ∨ tc.pc = .done) := by
+  have l1 := hL.gen
+  have l2 := hL.shut
+  have l4 := hL.tx
+  unfold step at hd1
+  simp only [List.getElem?_cons_succ, List.getElem?_cons_zero] at hd1
+  cases otp with
+  | none =>
+    exfalso
+    obtain ⟨hqt, hrep, hy, hrs, hret, hph⟩ := hcore
+    rcases hph with ⟨hpc | hpc, hqs, hgen⟩ | ⟨hpc, hg, hgen, q0, hqs, hsp⟩
+    · simp [hpc, hprog, hup, hns] at hd1
+    · simp only [hpc, cGen] at l1
+      simp only [hpc, hprog, hns, l1] at hd1
+      simp at hd1
+      split at hd1 <;> simp at hd1
+    · simp [hpc, hprog, gen?] at hd1
+  | some tp =>
+    refine ⟨tp, rfl, ?_⟩
+    obtain ⟨hpp, hpg, hppc, hgen, henq, q0, hqs, hsp, hcl⟩ := hcore
+    unfold ClientC at hcl
+    cases hpc : tc.pc <;> simp only [hpc] at hcl hd1 <;> (try exact hcl.elim)
+    case done => exact Or.inr rfl
+    case nbGet => exact Or.inl rfl
+    case lkRel =>
+      exfalso
+      simp only [hpc, cGen] at l1
+      simp [l1, hprog, hcl.1] at hd1
+    case iiN0 =>
+      exfalso
+      cases hms : mShut tm.pc with
+      | false =>
+        simp only [hms, hpc, cShut] at l2
+        simp [l2] at hd1
+      | true =>
+        have h4 : s.txOwner = (if tm.pc = .mnTxR then some 0 else none) := by simpa [hpc] using l4
+        refine main_enabled hm hL ?_ ?_ ?_ hd0
+        · intro hh; rw [hh] at hms; cases hms
+        · intro hh; rw [hh] at hms; cases hms
+        · intro hh; rw [h4, hh]; simp
+    case iiN1 =>
+      exfalso
+      have hms : mShut tm.pc = false := by
+        cases hms : mShut tm.pc with
+        | false => rfl
+        | true => have := hL.shutX hms; simp [hpc, cShut] at this
+      simp only [hms, hpc, cShut] at l2
+      simp [l2] at hd1
+    case iiN2 =>
+      exfalso
+      have hms : mShut tm.pc = false := by
+        cases hms : mShut tm.pc with
+        | false => rfl
+        | true => have := hL.shutX hms; simp [hpc, cShut] at this
+      simp only [hms, hpc, cShut] at l2
+      simp [l2, hprog] at hd1
+    case nbTxA =>
+      exfalso
+      by_cases hmt : tm.pc = .mnTxR
+      · refine main_enabled hm hL ?_ ?_ ?_ hd0
+        · rw [hmt]; simp
+        · rw [hmt]; simp
+        · rw [hmt]; simp
+      · simp only [hmt, hpc] at l4
+        simp [l4] at hd1
+    case nbTxR =>
+      exfalso
+      obtain ⟨-, -, r, hrep, -⟩ := hcl
+      have hmt : tm.pc ≠ .mnTxR := fun hh => hL.txX hh hpc
+      simp only [hmt, hpc] at l4
+      simp [l4, hrep] at hd1
+
+/-- **Nothing stays blocked** (one client): in a configuration of the invariant in which no thread can take
+a step, the client's loop has ended, the prefetch thread has ended, and the server's own thread is parked
+in `run_until_shutdown` (not notified) — it waits for a shutdown request, which nobody makes here. -/
+theorem one_dead {g : Gen} {b : Nat} {c : Cfg} (hI : RLInv g b c) (hdead : ∀ tid, step c tid = none) :
+    ∃ tm tc tp, c.ths = [tm, tc, tp] ∧ tm.pc = .mnWake ∧ c.sh.shutNotified.contains 0 = false ∧
+      tc.pc = .done ∧ tp.pc = .done := by
+  obtain ⟨tm, tc, otp, hths, hm, hprog, hns, hup, hcore, hL⟩ := hI
+  obtain ⟨s, ths⟩ := c
+  simp only at hths hns hup hcore hL
+  subst hths
+  have hd0 := hdead 0
+  have hd1 := hdead 1
+  have hd2 := hdead 2
+  obtain ⟨tp, rfl, hcpc⟩ := client_dead hm hprog hns hup hcore hL hd0 hd1
+  obtain ⟨hpp, hpg, hppc, hgen, henq, q0, hqs, hsp, hcl⟩ := hcore
+  obtain ⟨p1, p2, p3, p4⟩ := hL.pq tp rfl
+  obtain ⟨hv, hto⟩ := hL.live q0 hqs
+  -- the prefetch thread has been scheduled at least once
+  have hppc' : tp.pc = .prod ∨ tp.pc = .done := by
+    rcases hppc with h | h | h
+    · exfalso
+      unfold step at hd2
+      simp [h, hpp] at hd2
+    · exact Or.inl h
+    · exact Or.inr h
+  -- neither embedded queue thread can step
+  have hC1 : Queue.stepThread q0 (viewC b tc) 1 false = none := by
+    rcases hcpc with h | h
+    · have hg0 : tc.g = 0 := by unfold ClientC at hcl; simp only [h] at hcl; exact hcl.1
+      have : viewC b tc = tc.qt := by simp [viewC, h]
+      rw [this]
+      exact step_nbGet_none (c := { sh := s, ths := [tm, tc, tp] }) (tid := 1) rfl h (by simp [hg0, hqs]) hd1
+    · have : viewC b tc = doneC b := by simp [viewC, h]
+      rw [this]; exact stepThread_done_none rfl
+  have hP2 : Queue.stepThread q0 tp.qt 2 false = none := by
+    rcases hppc' with h | h
+    · exact step_prod_none (c := { sh := s, ths := [tm, tc, tp] }) (tid := 2) rfl h (by simp [hpg, hqs]) hd2
+    · exact stepThread_done_none (p3 h)
+  have hCkind : (viewC b tc).prog.kind = .batch := by
+    rcases hcpc with h | h
+    · have : viewC b tc = tc.qt := by simp [viewC, h]
+      unfold ClientC at hcl; simp only [h] at hcl
+      rw [this, hcl.2.1]; rfl
+    · have : viewC b tc = doneC b := by simp [viewC, h]
+      rw [this]; rfl
+  have hCne : viewC b tc ≠ inertT := by
+    intro hh; rw [hh] at hCkind; simp [inertT, Queue.Prog.kind] at hCkind
+  by_cases hs : tp.qt.pc = .sAcq
+  · -- the prefetch thread only waits for the state lock, whose owner could step
+    exfalso
+    have hview : view b q0 tc (some tp) = { sh := q0, ths := [inertT, viewC b tc] } := by
+      simp [view, viewP, hs]
+    rw [hview] at hv
+    have hfree := (Queue.stuck_all_parked_inert hv.base.lock (by
+      intro tid t ht
+      match tid with
+      | 0 => simp at ht; exact Or.inl ht.symm
+      | 1 => simp at ht; subst ht; right; rw [hC1]; rfl
+      | n + 2 => simp at ht)).1 .st
+    unfold Queue.stepThread at hP2
+    simp [hs, Queue.acquire, hfree] at hP2
+  · have hview : view b q0 tc (some tp) = { sh := q0, ths := [inertT, viewC b tc, tp.qt] } := by
+      simp [view, viewP, hs]
+    rw [hview] at hv
+    have hPprod : Queue.isProd tp.qt = true := by simp [Queue.isProd, hsp.prod.prog, Queue.Prog.kind]
+    have hall := Queue.dead_all_done hv hto
+      (fun _ => by
+        show 0 < List.countP Queue.isProd [inertT, viewC b tc, tp.qt]
+        simp only [List.countP_cons, hPprod, if_true]; omega)
+      (Or.inr ⟨viewC b tc, by simp, by simp [Queue.isCons, hCkind]⟩)
+      (by
+        intro tid t ht
+        match tid with
+        | 0 => simp at ht; exact Or.inl ht.symm
+        | 1 => simp at ht; subst ht; right; rw [hC1]; rfl
+        | 2 => simp at ht; subst ht; right; rw [hP2]; rfl
+        | n + 3 => simp at ht)
+    have hCd : (viewC b tc).pc = .done := by
+      rcases hall 1 (viewC b tc) rfl with h | h
+      · exact absurd h hCne
+      · exact h
+    have hPd : tp.qt.pc = .done := by
+      rcases hall 2 tp.qt rfl with h | h
+      · rw [h] at hPprod; simp [inertT, Queue.isProd, Queue.Prog.kind] at hPprod
+      · exact h
+    have hcd : tc.pc = .done := by
+      rcases hcpc with h | h
+      · have : viewC b tc = tc.qt := by simp [viewC, h]
+        rw [this] at hCd
+        exact absurd hCd (hL.cq h)
+      · exact h
+    have hpd : tp.pc = .done := by
+      rcases hppc' with h | h
+      · exact absurd hPd (p4 h)
+      · exact h
+    -- the server's own thread
+    have l2 := hL.shut
+    have l4 := hL.tx
+    have hmw : tm.pc = .mnWake := by
+      by_cases hmw : tm.pc = .mnWake
+      · exact hmw
+      · exfalso
+        refine main_enabled hm hL hmw ?_ ?_ hd0
+        · intro hh; rw [l2]; simp [hh, mShut, hcd, cShut]
+        · intro hh; rw [l4]; simp [hh, hcd]
+    refine ⟨tm, tc, tp, rfl, hmw, ?_, hcd, hpd⟩
+    have hso : s.shutOwner = none := by rw [l2]; simp [hmw, mShut, hcd, cShut]
+    unfold step at hd0
+    simp only [List.getElem?_cons_zero, hmw, hso] at hd0
+    simpa using hd0
